@@ -867,7 +867,9 @@ mutual
       obtain ⟨a1, a2, a3⟩ := piece_nojump [genName n, Instr.matrix]
         (by cases n <;> rfl) (by intro x hx; cases n <;> simp [genName] at hx <;> rcases hx with rfl | rfl <;> simp)
       obtain ⟨b1, b2, b3⟩ := piece_nojump
-        [Instr.endMatrix, Instr.moveq (.operand .matrixLight) (.reg .operand)] rfl (by simp)
+        [Instr.endMatrix, genName n, Instr.moveq (.operand .matrixLight) (.reg .operand)]
+        (by cases n <;> rfl)
+        (by intro x hx; cases n <;> simp [genName] at hx <;> rcases hx with rfl | rfl | rfl <;> simp)
       rw [genOperand, stripOp, genOperand, mloc_append3 a1 a2 hb.neutral (jc_of_closed hb) b2, a3, b3,
         mloc_block body false true h.2 hf]
     | .light n, im, h, hf => by
